@@ -9,6 +9,7 @@ from hypothesis import strategies as st
 from pbt import gen, ti as tim
 from pbt.props.c01 import diff
 from pbt.runner import must, check
+from pbt.poison import poison
 
 PROPERTY = "C04"
 LEVEL = "exploration"
@@ -61,6 +62,7 @@ def tree_case(case):
     ini = must("stdlib-read", tim.read_ini, text)
     d = diff(tim.expected_ini(desc, main), ini)
     check(d is None, "file-differs-from-reference-model", lambda: "reference INI model vs file read by RawConfigParser: %s" % d)
+    poison(obj), poison(again)
     return {"nontrivial": tim.is_nontrivial(desc), "labels": tim.labels(desc)}
 
 
@@ -110,6 +112,7 @@ def disc_case(case):
           lambda: "file lines %r" % (lines,))
     text2 = must("second-dumps", again.dumps)
     check(text2 == text, "second-dump-differs", "first %r second %r" % (text, text2))
+    poison(d), poison(again)
     r = repr(case["timestamp"])
     hard = "e" in r or len(r.replace(".", "").replace("-", "").lstrip("0")) > 12
     return {"nontrivial": hard or case["discs"] != ["ALL"], "labels": ["hard-float"] if hard else []}
